@@ -189,6 +189,18 @@ func dispatchTotal(c *Ctx, emit *ssa.Function, label string, minArms int) {
 			if g == nil || !c.W.InRepo(g) {
 				continue
 			}
+			// an emit function hands back text (a check that is given the statement and returns
+			// only an error is not one)
+			givesText := false
+			res := g.Signature.Results()
+			for i := 0; i < res.Len(); i++ {
+				if b, ok := res.At(i).Type().Underlying().(*types.Basic); ok && b.Info()&types.IsString != 0 {
+					givesText = true
+				}
+			}
+			if !givesText {
+				continue
+			}
 			for _, a := range ci.Common().Args {
 				if a == val {
 					emitCalls = append(emitCalls, ci.(ssa.Instruction))
